@@ -1,6 +1,7 @@
 package sign
 
 import (
+	"errors"
 	"fmt"
 
 	"github.com/taurusgroup/multi-party-sig/internal/round"
@@ -18,6 +19,12 @@ import (
 // The Receiver plays the role of "Bob".
 func StartSignReceiver(config *keygen.ConfigReceiver, selfID, otherID party.ID, hash []byte, pl *pool.Pool) protocol.StartFunc {
 	return func(sessionID []byte) (round.Session, error) {
+		if err := config.Validate(); err != nil {
+			return nil, fmt.Errorf("sign.StartSign: %w", err)
+		}
+		if len(hash) == 0 {
+			return nil, errors.New("sign.StartSign: message hash is empty")
+		}
 		info := round.Info{
 			ProtocolID:       "doerner/sign",
 			FinalRoundNumber: 2,
@@ -44,6 +51,12 @@ func StartSignReceiver(config *keygen.ConfigReceiver, selfID, otherID party.ID, 
 // The Sender plays the role of "Alice".
 func StartSignSender(config *keygen.ConfigSender, selfID, otherID party.ID, hash []byte, pl *pool.Pool) protocol.StartFunc {
 	return func(sessionID []byte) (round.Session, error) {
+		if err := config.Validate(); err != nil {
+			return nil, fmt.Errorf("sign.StartSign: %w", err)
+		}
+		if len(hash) == 0 {
+			return nil, errors.New("sign.StartSign: message hash is empty")
+		}
 		info := round.Info{
 			ProtocolID:       "doerner/sign",
 			FinalRoundNumber: 2,
